@@ -7,7 +7,7 @@
 //!  pad:   `d` default (ones) | `z` zeros | `a` alternating per flush | `r` seeded random per flush | `n` seeded per bit
 //!  ezr:   number of extra zero-run entries (on seeded blocks; only blocks whose last coefficients are zero)
 //!  meta:  `-` none | `e` Exif in JPEG + box | `E` Exif box only | `x` xml box only | `c` comment | `ec`
-//!  feed:  `w` read whole | `<n>` feed in chunks of n bytes
+//!  feed:  `w` read whole | `<n>` feed in chunks of n bytes | `emit` print the container and the JPEG as hex
 //! Answer: `ok <jpeg bytes>` | `diff at=<i> got=<len> want=<len>` | `status <s>` | `err <class>` | `panic…`
 use jxl_oxide::{InitializeResult, JpegReconstructionStatus, JxlImage, JxlThreadPool};
 use verif_harness::synth::*;
@@ -146,6 +146,10 @@ fn case(w: &[&str]) -> Option<String> {
     let exif_box = (meta.contains('e') || meta.contains('E')).then_some(&tiff[..]);
     let xml_box = meta.contains('x').then_some(xmp);
     let container = write_container(&spec, exif_box, xml_box);
+    if *feed == "emit" {
+        // the files themselves, for other checks: `emit <container hex> <jpeg hex>`
+        return Some(format!("emit {} {}", hex(&container), hex(&expected)));
+    }
     let image = match open(&container, feed) {
         Ok(i) => i,
         Err(e) => return Some(e),
